@@ -15,8 +15,7 @@ var tmpDir string
 
 // libpcapMonitor (C14, optional oracle): libpcap must read the same packets from the file.
 // libpcap treats a snap length of 0 or above 262144 specially, so only files inside that
-// range are compared; timestamps are compared at microsecond resolution (pcap.OpenOffline
-// asks libpcap for microseconds).
+// range are compared; pcap.OpenOffline keeps the file's timestamp resolution.
 func libpcapMonitor(ns bool, snaplen uint32, lt uint16, exp []out, file []byte) {
 	if snaplen == 0 || snaplen > 262144 || len(file) > 1<<20 {
 		lib.Stat("libpcap:skipped")
@@ -56,7 +55,7 @@ func libpcapMonitor(ns bool, snaplen uint32, lt uint16, exp []out, file []byte) 
 			lib.Finding("C14", "pcap:libpcap-mismatch", fmt.Sprintf("libpcap: packet %d of %d: %v", i, len(exp), err))
 			return
 		}
-		us := e.nsec / 1000 * 1000
+		us := e.nsec
 		if string(data) != string(e.data) || ci.CaptureLength != e.caplen || ci.Length != e.length ||
 			ci.Timestamp.Unix() != e.sec || ci.Timestamp.Nanosecond() != us {
 			lib.Finding("C14", "pcap:libpcap-mismatch", fmt.Sprintf("libpcap: packet %d differs: got caplen %d len %d ts %d.%09d, written caplen %d len %d ts %d.%09d",
